@@ -14,6 +14,9 @@ pub struct Expect {
     pub movie_timescale: Option<u32>,
     pub media_timescale: u32,
     pub n_tracks: usize,
+    /// the codec video() was given (None: not known, e.g. a FragmentConfig built by hand, where the
+    /// fields present decide)
+    pub codec: Option<u8>,
 }
 
 fn walk<'a>(n: &'a BoxNode, path: String, f: &mut dyn FnMut(&'a BoxNode, &str)) {
@@ -33,6 +36,7 @@ pub fn check_stream(bytes: &[u8], kind: &str, exp: Option<&Expect>, obs: &mut Ob
     let mut mdhds: Vec<sd::MdhdS> = Vec::new();
     let mut handlers: Vec<[u8; 4]> = Vec::new();
     let mut ventries: Vec<sd::VisualEntry> = Vec::new();
+    let mut stsz_counts: Vec<u32> = Vec::new();
     let mut boxes = 0u64;
     for top in &tree.top {
         walk(top, String::new(), &mut |n, path| {
@@ -154,6 +158,9 @@ pub fn check_stream(bytes: &[u8], kind: &str, exp: Option<&Expect>, obs: &mut Ob
                     if p.len() < 4 || p[..4] != [0, 0, 0, 0] {
                         dev.push(format!("{}: version/flags not 0", n.typ_str()));
                     }
+                    if &n.typ == b"stsz" && p.len() >= 12 {
+                        stsz_counts.push(u32::from_be_bytes([p[8], p[9], p[10], p[11]]));
+                    }
                 }
                 b"ctts" => {
                     if p.len() < 4 || p[0] > 1 || p[1..4] != [0, 0, 0] {
@@ -256,6 +263,14 @@ pub fn check_stream(bytes: &[u8], kind: &str, exp: Option<&Expect>, obs: &mut Ob
                     }
                 }
                 for ve in &ventries {
+                    if let Some(c) = e.codec {
+                        if !super::c07::fourcc_of(c).iter().any(|f| **f == ve.typ) {
+                            // (a recording without a single frame has no stream to take the codec
+                            // configuration from; what the library writes then is its own case)
+                            let empty = if kind == "file" && stsz_counts.first() == Some(&0) { "|recording without frames" } else { "" };
+                            out.push(v(format!("{}|visual sample entry: not the configured codec's entry type{}", kind, empty), format!("entry {:?} for codec {}", String::from_utf8_lossy(&ve.typ), c)));
+                        }
+                    }
                     if (ve.width as u32, ve.height as u32) != (e.width, e.height) {
                         out.push(v(format!("{}|visual sample entry: width/height", kind), format!("{}x{} expected {}x{}", ve.width, ve.height, e.width, e.height)));
                     }
